@@ -21,7 +21,7 @@ from canmon.ref.sdo_server import RefSdoServer
 ID = "C19"
 LEVEL = "exploration"
 RULE = ("(1) decode: every 16-bit statusword (exhaustive); (2) transitions: all 8 x 8 (drive state, target) pairs x automatic "
-        "transition delays {0, 1, 3} status reads x extra status bit patterns x transports (SDO, PDO event-driven, PDO with "
+        "transition delays {0, 1, 2, 3, 4, 6} status reads (quick; up to 12 in thorough) x extra status bit patterns x transports (SDO, PDO event-driven, PDO with "
         "ticked TPDO), judged on the drive model's controlword log and state trace (bounded restatement: target reached "
         "within 12 controlword writes); (3) modes: every mode name x supported-mode masks (64 in quick, all 1024 in "
         "thorough) over SDO and RPDO. Signature = (workload, start, target, delay, transport) / (mode, supported?); all "
@@ -37,7 +37,7 @@ COMMANDABLE = (D.SOD, D.RTSO, D.SO, D.OE, D.QSA)
 def plan(tier, seed):
     shards = [{"kind": "decode", "part": i, "parts": 4} for i in range(4)]
     transports = ["sdo", "pdo", "sdo-disabled-tpdo", "pdo", "pdo-ticked"] if tier == "quick" else ["sdo", "pdo", "sdo-disabled-tpdo"] * 4 + ["pdo-ticked"] * 3
-    shards += [{"kind": "transitions", "transport": t, "delays": [0, 1, 3] if tier == "quick" else [0, 1, 2, 3, 5, 8],
+    shards += [{"kind": "transitions", "transport": t, "delays": [0, 1, 2, 3, 4, 6] if tier == "quick" else [0, 1, 2, 3, 4, 5, 6, 8, 12],
                 "extras": 3 if tier == "quick" else 12, "cs": seed * 10 + i} for i, t in enumerate(transports)]
     shards += [{"kind": "modes", "masks": 64 if tier == "quick" else 1024, "transport": t, "cs": seed} for t in ("sdo", "pdo")]
     return shards
